@@ -11,6 +11,7 @@ mod astops;
 mod canon;
 mod entry;
 mod unp;
+mod trav;
 mod fmtops;
 mod hooks;
 mod pos;
@@ -41,6 +42,7 @@ fn dispatch(req: &Value) -> Value {
         "parse_ok" => syn::parse_ok(req),
         "entrypoints" => entry::entrypoints(req),
         "unparse" => unp::unparse(req),
+        "traverse" => trav::traverse(req),
         "locate_tree" => syn::locate_tree(req),
         "locate_calls" => syn::locate_calls(req),
         _ => json!({"tool_error": format!("unknown op {op}")}),
